@@ -19,8 +19,8 @@ for f in sorted(os.listdir(cdir)):
             hdr = txt.split("Definition c")[0]
             v = hdr + "\nDefinition cc : case := %s.\n" % m.group(1)
             v += "Fixpoint fd {A} (eq : A -> A -> bool) (a b : list A) (i : Z) : Z := match a, b with x :: a', y :: b' => if eq x y then fd eq a' b' (i+1)%Z else i | [], [] => (-1)%Z | _, _ => i end.\n"
-            v += "Definition dd := Eval vm_compute in (match cc with CProg b (Outcome t f) => match outcome_of (run_program fuel no_devs b) with Outcome t' f' => (fd (list_eqb oval_eqb) t t' 0%Z, ofin_eqb f f') | _ => ((-2)%Z, false) end | _ => ((-3)%Z, false) end).\nPrint dd.\n"
-            v += "Definition oo := Eval vm_compute in (match cc with CProg b _ => outcome_of (run_program fuel no_devs b) end).\nPrint oo.\n"
+            v += "Definition dd := Eval vm_compute in (match run_case no_devs cc with (Outcome t' f', Outcome t f) => (fd (list_eqb oval_eqb) t t' 0%Z, ofin_eqb f f') | (_, Outcome _ _) => ((-2)%Z, false) | _ => ((-3)%Z, false) end).\nPrint dd.\n"
+            v += "Definition oo := Eval vm_compute in (fst (run_case no_devs cc)).\nPrint oo.\n"
             open("/tmp/luadbg.v", "w").write(v)
             out = subprocess.run(["coqc", "-R", "/verif/coq", "GL", "/tmp/luadbg.v"], capture_output=True, text=True, cwd="/tmp")
             o = (out.stdout + out.stderr)
